@@ -142,8 +142,21 @@ def rule_r2(ctx: Ctx) -> None:
     okx = False
     if len(calls) == 1:
         c = calls[0]
-        gs = guards(c, stop=ex.node)
-        cond_ok = len(gs) == 1 and gs[0][1] and any(isinstance(x, ast.Constant) and x.value == "weight" for x in ast.walk(gs[0][0]))
+        from ..astutil import atomic_guards
+        gs = atomic_guards(c, stop=ex.node)
+
+        def mentions_weight(t: ast.AST, depth: int = 0) -> bool:
+            if any(isinstance(x, ast.Constant) and x.value == "weight" for x in ast.walk(t)):
+                return True
+            if depth < 2:
+                for nm_ in [x.id for x in ast.walk(t) if isinstance(x, ast.Name)]:
+                    ds = [a for a in walk_local(ex.node) if isinstance(a, ast.Assign) and len(a.targets) == 1
+                          and isinstance(a.targets[0], ast.Name) and a.targets[0].id == nm_]
+                    if len(ds) == 1 and mentions_weight(ds[0].value, depth + 1):
+                        return True
+            return False
+
+        cond_ok = len(gs) == 1 and gs[0][1] and isinstance(gs[0][0], ast.Call) and call_name(gs[0][0]) == "any" and mentions_weight(gs[0][0])
         args_ok = len(c.args) == 2 and isinstance(c.args[1], ast.Call) and call_name(c.args[1]) == "get_weights"
         okx = cond_ok and args_ok
     n += 1
